@@ -9,7 +9,7 @@ from pbt import appmon
 
 ID = 'C20'
 LEVEL = 'exploration'
-RULE = ('A case is a history of 3-30 evaluations of the real _run_sync loop '
+RULE = ('A case is a history of 3-24 (thorough: 3-40) evaluations of the real _run_sync loop '
         'over 1-3 apps (names sharing prefixes): between evaluations the '
         'virtual clock jumps 0 s - 1 day (aimed at 299/300/301 s, 1799/1800/'
         '1801 s, 3600 s), instances die (all / some), are started by someone '
@@ -48,7 +48,7 @@ BUDGET = {'quick': 8000, 'thorough': 160000}
 
 
 def strategy(tier):
-    return appmon.cases(max_rounds=30 if tier == 'quick' else 40)
+    return appmon.cases(max_rounds=24 if tier == 'quick' else 40)
 
 
 def execute(case, stats):
@@ -90,7 +90,7 @@ def fixed_cases():
             ]}),
         # refill is capped at 2*count: spend half, idle for a day, churn
         ('idle-day-then-churn', {
-            'seq0': 0, 'init': [['mon', web, 2, None]],
+            'seq0': 0, 'init': [['mon', web, 2, None], ['spawn', web, 2]],
             'rounds': [
                 {'dt': 0, 'ops': []},
                 {'dt': 0, 'ops': [['dieall', web]]},
